@@ -2,7 +2,17 @@
 call plumbing of aw_query/functions.py off the live registry (inspect.signature of every
 registered function), recording what the built-in bodies were called with and what they
 did (the model treats bodies as an oracle and is replayed against that record), and the
-wire encoding of cases for the extracted model (coq/Extract/ExC17.v)."""
+wire encoding of cases for the extracted model (coq/Extract/ExC17.v).
+
+The recorder is spliced in WITHOUT knowing how the decorators are written (Impl._locate: the
+`__wrapped__` chain functools.wraps leaves + the one closure cell / instance attribute of each
+wrapper that holds what it wraps, whatever it is called).  Where even that is impossible (a
+wrapper without `__wrapped__`, a callable object holding nothing of the kind) the checks do not
+stop: Impl.blackbox names the reason (the checks report it as a broken tie) and everything runs
+in BLACK-BOX mode - the interface from the frozen registry, queries through aw_query.query only,
+no body record; the model is still compared on every text for which it asks for no recorded body
+outcome (see model_case / blackbox_skip)."""
+import functools
 import importlib
 import inspect
 import json
@@ -72,13 +82,27 @@ class Impl:
         self.F, self.Q, self.X = F, Q, X
         self.Datastore = Datastore
         self.Event = Event
+        self.blackbox = None    # reason why no recorder could be spliced in (then: black-box mode), else None
+        self.unspliced = {}     # built-in name -> why its wrapper chain cannot be followed
         if with_echo and "echo" not in F.functions:
-            @F.q2_function()
             def q2_echo(*args):
                 return list(args)
+            F._c17_echo = True              # an earlier Impl of this process may have put it there
+            try:
+                F.q2_function()(q2_echo)
+                if not callable(F.functions.get("echo")):
+                    raise HarnessBroken("q2_function()(f) did not register f under its name without the q2_ prefix")
+            except Exception as e:      # the public decorator no longer registers a plain function: put the
+                F._c17_echo = f"{type(e).__name__}: {e}"            # harness's own built-in there directly
+                F.functions["echo"] = lambda datastore, namespace, *args: list(args)
+        self.echo_ours = bool(getattr(F, "_c17_echo", False))
+        self.echo_direct = F._c17_echo if isinstance(getattr(F, "_c17_echo", None), str) else None
+        if os.environ.get("VERIF_C17_FORCE_BLACKBOX"):      # development aid: always ends in a broken tie (exit 1)
+            self.blackbox = "black-box mode forced by VERIF_C17_FORCE_BLACKBOX"
         self.ds = Datastore(MemoryStorage, testing=True)
         self.cur_ds = self.ds
         self.contents = {}      # id(datastore) -> {bucket id: [(offset us, duration us, data)]}: what the HARNESS put there
+        self.hosts = {}         # id(datastore) -> {bucket id: hostname in the bucket's metadata}
         self.keep_ds = [self.ds]
         self.create_bucket(self.ds, "b1", B1_EVENTS)
         self.buckets = self.buckets_of(self.ds)
@@ -86,8 +110,45 @@ class Impl:
         self.keep = []          # keeps opaque objects alive so id() stays unique
         self.opaque = {}
         self.snapshot_path = snapshot
+        self.echo_probe = None
+        if self.echo_ours and not self.echo_direct:
+            # The harness's own variadic built-in must mean (*args) -> list(args), or every stream that uses it
+            # would report the harness's test double instead of the tree's built-ins: asked through the public
+            # entry point; when the tree's decorator does not give a variadic function that meaning, this is kept
+            # (a finding of its own, reported once) and echo is put into the registry without the decorator.
+            bad = self._probe_echo()
+            if bad:
+                self.echo_probe = bad
+                F._c17_echo = self.echo_direct = "registered through q2_function() it does not apply (*args): " + bad["observed"]
+                F.functions["echo"] = lambda datastore, namespace, *args: list(args)
         self.table = self._read_registry()
         self.max_digits = sys.get_int_max_str_digits() if hasattr(sys, "get_int_max_str_digits") else 0
+
+    def _probe_echo(self):
+        for text, want in (('RETURN = echo(1, "s", [2]);', [1, "s", [2]]), ("RETURN = echo();", []), ("RETURN = echo(nop());", [1])):
+            try:
+                got = self.Q.query(QNAME, text, T_START, T_END, self.ds)
+                seen = repr(got)
+            except Exception as e:
+                got, seen = e, f"raises {type(e).__name__}: {e}"
+            if isinstance(got, Exception) or got != want:
+                return {"query": text, "expected": repr(want), "observed": seen,
+                        "registered_as": "@aw_query.functions.q2_function() def q2_echo(*args): return list(args)"}
+        return None
+
+    def _probe_outcomes(self):
+        """[(text, outcome as text)] of a fixed list of small queries: every registered name with eight argument
+        lists (right and wrong counts and types for most built-ins)."""
+        out = []
+        for name in sorted(self.F.functions):
+            for args in ('', '"s"', '"b1"', '[], "s"', '[], []', '[], 1', '1, 1', '[], "s", []'):
+                text = f"RETURN = {name}({args});"
+                try:
+                    seen = "value " + repr(self.Q.query(QNAME, text, T_START, T_END, self.ds))[:300]
+                except Exception as e:
+                    seen = "raises " + self.classify_exc(e)
+                out.append((text, seen))
+        return out
 
     # -- datastores and their buckets (sessions: creation / deletion / re-creation between queries) ----
     def new_datastore(self, storage="memory"):
@@ -100,10 +161,11 @@ class Impl:
             ds.delete_bucket(b)
         return ds
 
-    def create_bucket(self, ds, bid, events=()):
+    def create_bucket(self, ds, bid, events=(), hostname="h1"):
         """events: (offset from T_START in us, duration in us, data) - recorded on the harness side, so
         that what a bucket holds (and which buckets exist) never has to be asked of the tree under test."""
-        b = ds.create_bucket(bid, type="test", client="c", hostname="h1")
+        b = ds.create_bucket(bid, type="test", client="c", hostname=hostname)
+        self.hosts.setdefault(id(ds), {})[bid] = hostname
         if events:
             b.insert([self.Event(timestamp=T_START + timedelta(microseconds=o), duration=timedelta(microseconds=d),
                                  data=dict(data)) for o, d, data in events])
@@ -112,65 +174,127 @@ class Impl:
     def delete_bucket(self, ds, bid):
         ds.delete_bucket(bid)
         del self.contents[id(ds)][bid]
+        self.hosts[id(ds)].pop(bid, None)
 
     def buckets_of(self, ds):
         return sorted(self.contents.get(id(ds), {}))
 
     # -- the registry -----------------------------------------------------------------
     @staticmethod
-    def _cell(fn, name):
-        code = fn.__code__
-        if name not in code.co_freevars:
-            raise HarnessBroken(f"{fn} has no closure variable {name}")
-        return fn.__closure__[code.co_freevars.index(name)]
+    def _holders(wrapper, wrapped):
+        """Where `wrapper` keeps the callable it wraps, found by IDENTITY, not by name: closure cells and
+        (for a callable object) instance attributes whose value is `wrapped` (or a recorder of an earlier
+        Impl around it).  -> [(get, set)]"""
+        def is_it(x):
+            return x is wrapped or (getattr(x, "_c17_recorder", False) and x._c17_orig is wrapped)
+        out = []
+        for cell in getattr(wrapper, "__closure__", None) or ():
+            try:
+                if is_it(cell.cell_contents):
+                    out.append((lambda c=cell: c.cell_contents, lambda v, c=cell: setattr(c, "cell_contents", v)))
+            except ValueError:           # empty cell
+                pass
+        if not isinstance(wrapper, types.FunctionType):
+            try:
+                attrs = dict(vars(wrapper))
+            except TypeError:
+                attrs = {}
+            for k, v in attrs.items():
+                if k != "__wrapped__" and is_it(v):
+                    out.append((lambda o=wrapper, k=k: getattr(o, k), lambda v, o=wrapper, k=k: setattr(o, k, v)))
+        return out
+
+    def _locate(self, name, outer):
+        """The registered callable -> (holder of the built-in's own function, that function, number of wrappers).
+        Nothing about HOW the decorators are written is assumed (names of the wrappers, of their closure
+        variables, how many there are, closures or callable objects): each wrapper carries `__wrapped__`
+        (functools.wraps / update_wrapper) and holds what it wraps in exactly one place.  HarnessBroken
+        otherwise - the caller then switches the whole run to black-box mode."""
+        fn, chain = outer, []
+        while getattr(fn, "__wrapped__", None) is not None:
+            if len(chain) > 8:
+                raise HarnessBroken(f"functions[{name!r}]: more than 8 wrappers")
+            inner = fn.__wrapped__
+            hs = self._holders(fn, inner)
+            if len(hs) != 1:
+                raise HarnessBroken(f"functions[{name!r}]: the wrapper {getattr(fn, '__qualname__', type(fn).__qualname__)} holds the "
+                                    f"function it wraps ({getattr(inner, '__qualname__', inner)}) in {len(hs)} places (closure cells / "
+                                    f"attributes), not in exactly one")
+            chain.append(hs[0])
+            fn = inner
+        if not chain:
+            raise HarnessBroken(f"functions[{name!r}] = {outer!r} carries no __wrapped__: not a functools.wraps / update_wrapper "
+                                f"wrapper around the built-in's own function")
+        if not isinstance(fn, types.FunctionType):
+            raise HarnessBroken(f"functions[{name!r}]: the innermost wrapped object {fn!r} is not a plain function")
+        return chain[-1], fn, len(chain)
+
+    def _live_params(self, name, orig):
+        params = []
+        for p in inspect.signature(orig).parameters.values():
+            d = self.declared_type(orig, p.annotation, f"{name}.{p.name}")
+            if p.kind == p.VAR_POSITIONAL:
+                kind = "var_positional"
+            elif p.kind == p.POSITIONAL_OR_KEYWORD:
+                kind = "positional"
+            else:
+                raise HarnessBroken(f"{name}: parameter kind {p.kind} is outside the model")
+            params.append({"name": p.name, "kind": kind, "decl": d, "has_default": p.default is not p.empty})
+        return params, self.kinds_of(name, params)[0]
 
     def _read_registry(self):
         """Reads the LIVE registry (and splices the recorders), then takes the interface the expectations
         and the model's table are built from out of the frozen snapshot: a function named by the snapshot
         has the snapshot's parameters whatever the live signature says; a function that exists only live
         falls back to its live signature.  Every difference between the two is kept in
-        self.registry_diffs (the checks report each as a broken tie)."""
+        self.registry_diffs (the checks report each as a broken tie).
+        When some registered callable cannot be followed down to the built-in's own function, NO recorder
+        is installed anywhere: self.blackbox says why and the run continues in black-box mode."""
         F = self.F
         self.live = {}         # name -> [param dict] as read off the tree under test
         self.live_kinds = {}   # name -> kinds of the live signature (decoding of recorded body arguments)
         self.typechecked = {}
-        fpath = os.path.abspath(F.__file__)
+        self.body_codes = set()     # code objects of the built-ins' own functions (in_body)
+        unreadable = {}        # name -> why the live signature is outside what the harness reads
+        located = {}
         for name in sorted(F.functions):
-            outer = F.functions[name]
-            if outer.__code__.co_name != "g" or os.path.abspath(outer.__code__.co_filename) != fpath:
-                raise HarnessBroken(f"functions[{name!r}] is not q2_function's wrapper")
-            osig = self._cell(outer, "sig").cell_contents
-            fcell = self._cell(outer, "f")
-            inner = fcell.cell_contents
-            typechecked = (getattr(inner, "__code__", None) is not None and inner.__code__.co_name == "g"
-                           and os.path.abspath(inner.__code__.co_filename) == fpath
-                           and "sig" in inner.__code__.co_freevars)
-            if typechecked:
-                tsig = self._cell(inner, "sig").cell_contents
-                if str(tsig) != str(osig):
-                    raise HarnessBroken(f"{name}: the two decorators see different signatures")
-                fcell = self._cell(inner, "f")
-                inner = fcell.cell_contents
-            if getattr(inner, "_c17_recorder", False):
-                orig = inner._c17_orig
-            else:
-                orig = inner
-                fcell.cell_contents = self._recorder(name, orig)
-            if str(inspect.signature(orig)) != str(osig):
-                raise HarnessBroken(f"{name}: wrapper signature differs from the function's")
-            params = []
-            for p in osig.parameters.values():
-                d = self.declared_type(orig, p.annotation, f"{name}.{p.name}")
-                if p.kind == p.VAR_POSITIONAL:
-                    kind = "var_positional"
-                elif p.kind == p.POSITIONAL_OR_KEYWORD:
-                    kind = "positional"
-                else:
-                    raise HarnessBroken(f"{name}: parameter kind {p.kind} is outside the model")
-                params.append({"name": p.name, "kind": kind, "decl": d, "has_default": p.default is not p.empty})
-            self.live[name] = params
-            self.live_kinds[name] = self.kinds_of(name, params)[0]
-            self.typechecked[name] = typechecked
+            if name == "echo" and self.echo_direct:      # the harness's own, put there without any wrapper
+                continue
+            try:
+                located[name] = self._locate(name, F.functions[name])
+            except HarnessBroken as e:
+                self.unspliced[name] = str(e)
+        if self.unspliced and self.blackbox is None:
+            some = sorted(self.unspliced)
+            self.blackbox = (f"{len(some)} of {len(F.functions)} registered built-ins cannot be followed down to their own "
+                             f"function, e.g. {self.unspliced[some[0]]}")
+        if self.blackbox and self.snapshot_path is None:
+            raise HarnessBroken("cannot describe the live registry: " + self.blackbox)
+        # The splice must not be felt: the same probe queries before and after it.  A wrapper that looks at the
+        # function it wraps in a way the recorder cannot mimic (its code object, its identity, ...) would otherwise
+        # turn the harness's own intervention into "failing inputs" of the tree.
+        spliced = []
+        before = None if self.blackbox else self._probe_outcomes()
+        for name, ((get, put), orig, depth) in located.items():
+            self.body_codes.add(orig.__code__)
+            if not self.blackbox and not getattr(get(), "_c17_recorder", False):
+                put(self._recorder(name, orig))
+                spliced.append((put, orig))
+        if spliced:
+            after = self._probe_outcomes()
+            changed = [(t, a, b) for (t, a), (_, b) in zip(before, after) if a != b]
+            if changed:
+                for put, orig in spliced:
+                    put(orig)
+                t, a, b = changed[0]
+                self.blackbox = (f"with the body recorder spliced in, {len(changed)} of {len(before)} probe queries answer differently "
+                                 f"(e.g. {t!r}: {a} without, {b} with the recorder): the recorder was taken out again")
+        for name, ((get, put), orig, depth) in located.items():
+            try:
+                self.live[name], self.live_kinds[name] = self._live_params(name, orig)
+            except HarnessBroken as e:
+                unreadable[name] = str(e)
+            self.typechecked[name] = depth >= 2       # informational: more than the registering wrapper
 
         spec, self.registry_diffs, self.live_only = dict(self.live), [], []
         self.snapshot = None
@@ -181,13 +305,26 @@ class Impl:
                 raise HarnessBroken(f"cannot read the registry snapshot {self.snapshot_path}: {e}")
             self.snapshot = {n: [dict(p, decl=decl_from_json(p, f"snapshot {n}.{p['name']}")) for p in ps]
                              for n, ps in snap.items()}
-            for name in sorted(set(self.snapshot) | set(self.live)):
+            for name in sorted(set(self.snapshot) | set(F.functions)):
                 if name not in self.snapshot:
-                    self.live_only.append(name)          # e.g. the harness's own `echo`
+                    if name in self.live:
+                        self.live_only.append(name)      # e.g. the harness's own `echo`
+                    elif name == "echo" and self.echo_ours:      # the harness's own: (*args), whatever wraps it
+                        spec[name] = [{"name": "args", "kind": "var_positional", "decl": ("any",), "has_default": False}]
+                        self.live_only.append(name)
+                    else:
+                        self.registry_diffs.append(f"built-in {name} exists only in the tree under test and its signature cannot "
+                                                   f"be read ({unreadable.get(name) or self.unspliced.get(name)}): not in the model's table")
                     continue
                 spec[name] = self.snapshot[name]
-                if name not in self.live:
+                if name not in F.functions:
                     self.registry_diffs.append(f"built-in {name} of the frozen registry is no longer registered")
+                    continue
+                if name in unreadable:
+                    self.registry_diffs.append(f"built-in {name}: frozen registry ({', '.join(param_text(p) for p in self.snapshot[name])}) / "
+                                               f"tree under test: {unreadable[name]}")
+                if name not in self.live:        # not followed (black-box mode) or outside what the reader reads
+                    self.live_kinds[name] = self.kinds_of(name, self.snapshot[name])[0]
                     continue
                 a, b = [param_text(p) for p in self.snapshot[name]], [param_text(p) for p in self.live[name]]
                 if a != b:
@@ -345,6 +482,9 @@ class Impl:
             entry["out"] = ("ret", r)
             return r
 
+        # as transparent as a Python wrapper can be: a decorator that reads marks / names / docstrings / the signature
+        # off the function it wraps (at call time, through the very cell the recorder now sits in) finds them
+        functools.update_wrapper(rec, orig)
         rec._c17_recorder = True
         rec._c17_orig = orig
         return rec
@@ -398,36 +538,29 @@ class Impl:
         return n if n in ERR_CODE else "Other:" + n
 
     def in_body(self, e):
-        """Oracle side: was the exception raised inside a built-in's body?  Decided from the
-        traceback alone: the innermost aw_query frame is a function of functions.py other
-        than the two decorators' wrappers `g`, or there is a frame of aw_transform /
-        aw_datastore / aw_core below aw_query."""
-        tb = traceback.extract_tb(e.__traceback__)
+        """Oracle side: was the exception raised inside a built-in's body?  Decided from the traceback
+        alone, positively: some frame runs the code of a built-in's OWN function - the code objects found at
+        the bottom of the registered wrapper chains, or (black-box mode: no chain could be followed) a function
+        of functions.py named q2_<registered name> - and the exception comes from that frame or from below it.
+        A frame of a decorator's wrapper, whatever it is called, is not a body."""
         fpath = os.path.abspath(self.F.__file__)
-        qdir = os.path.dirname(fpath)
-        root = os.path.dirname(qdir)
-        innermost_q = None
-        below = False
-        for fr in tb:
-            fn = os.path.abspath(fr.filename)
-            if os.path.dirname(fn) == qdir:
-                innermost_q = (fn, fr.name)
-                below = False
-            elif fn.startswith(os.path.join(root, "aw_transform")) or fn.startswith(os.path.join(root, "aw_datastore")) \
-                    or fn.startswith(os.path.join(root, "aw_core")):
-                below = True
-        if innermost_q is None:
-            return False
-        fn, name = innermost_q
-        if fn == fpath and name not in ("g", "h", "q2_function", "q2_typecheck", "_verify_variable_is_type"):
-            return True
-        return below and fn == fpath
+        names = {"q2_" + n for n in self.F.functions} - {"q2_function", "q2_typecheck"}
+        tb = e.__traceback__
+        while tb is not None:
+            code = tb.tb_frame.f_code
+            if code in self.body_codes:
+                return True
+            if not self.body_codes or self.unspliced:
+                if os.path.abspath(code.co_filename) == fpath and code.co_name in names:
+                    return True
+            tb = tb.tb_next
+        return False
 
     def run(self, text, timeout_s=10, ds=None, ctx=None):
         """-> dict(outcome=('value', wire) | ('error', class), calls=[...], exc=exception or None);
         ds: the datastore the query runs against (default: the first one); ctx: (query name, start, end of the
         query period as offsets from T_START in us) - default (QNAME, T_START, T_END)"""
-        self.calls = []
+        self.calls = None if self.blackbox else []
         self.cur_ds = ds if ds is not None else self.ds
         qname, start, end = QNAME, T_START, T_END
         if ctx:
@@ -470,7 +603,14 @@ class Impl:
         buckets = self.buckets if buckets is None else buckets
         script = []
         log = []
-        for c in r["calls"]:
+        if r["calls"] is None:
+            # BLACK-BOX mode: nothing was recorded.  The case is sent with an empty script and `log` = None:
+            # the model then either needs no recorded body outcome (its own log stays empty: every call was
+            # nop / echo / a bucket pre-check that fails, or there was no call at all) and its outcome is
+            # compared as usual, or it asks for one (log non-empty / script exhausted) and the comparison is
+            # skipped for this text (blackbox_skip; the callers count both).
+            log = None
+        for c in r["calls"] or []:
             if "unsupported" in c:
                 raise Unsupported(c["unsupported"])
             kinds, body, _ = self.sigs[c["name"]]
@@ -502,6 +642,12 @@ class Impl:
         case = "(" + " ".join(["0", self._table_sx, sx(self.max_digits), sx([cps(b) for b in buckets]), sx(script),
                                sx(cps(qname)), sx(cps(start)), sx(cps(end)), sx(cps(text))]) + ")"
         return case, log, want
+
+
+def blackbox_skip(log, model_out):
+    """Black-box mode (model_case gave log = None): does the model's answer depend on a body outcome that
+    only the recorder could have supplied?  (outcome, model's call log, script exhausted)"""
+    return log is None and (bool(model_out[1]) or model_out[2] != 0)
 
 
 def decl_to_json(d):
